@@ -29,7 +29,7 @@ from ..objexec import CLOSE, OPEN, Arr, ClassV, FuncV, ObjExec
 from ..pm import AnalysisError, Program
 from ..report import Check
 from .common import loc
-from .roundtrip_sem import E0, Counter, concrete, ctor_params, count_fields, differences, field_key, make_component, model_engines, new_exec
+from .roundtrip_sem import loaded_engine, E0, Counter, concrete, ctor_params, count_fields, differences, field_key, make_component, model_engines, new_exec
 
 OBJECT_INIT = Opaque("object.__init__")
 EMPTY = MObj("<empty>", {})
@@ -49,6 +49,7 @@ class Named:
 def py_exec(p: Program, alias: str) -> ObjExec:
     ex = new_exec(p)
     ex.qual = "Python representation"
+    ex.function_variables = True
     settings = ex.globals["settings"]
     settings.fields["alias"] = alias
     settings.fields["<module>"] = "fuzzylite.library"
@@ -301,12 +302,20 @@ def py_roundtrip(check: Check, rule: str = "PY-sem") -> bool:
     cases = 0
     compared = 0
     undecided: list[str] = []
+    entered: set[str] = set()
     for alias in ("fl", "", "*"):
         ex = py_exec(p, alias)
+        ex.entered = entered
         cnt = Counter()
         try:
             engines = model_engines(ex, cnt) if alias == "fl" else model_engines(ex, cnt)[1:2] + model_engines(ex, cnt)[-2:]
             engines.append(("engine configured by assignment", assigned_engine(ex, cnt)))
+            if alias == "fl":
+                try:
+                    engines.append(("engine with loaded rules", loaded_engine(ex, cnt)))
+                except (Unknown, Raised, Internal) as err:
+                    cases += 1
+                    undecided.append(f"engine with loaded rules: loading its rules is outside the interpreter's model ({getattr(err, 'cls', '')}{getattr(err, 'why', err)})")
         except (Unknown, Raised, Internal) as err:
             raise AnalysisError(f"{rule}: the model engines cannot be built by interpreting the constructors: {getattr(err, 'cls', '')} {getattr(err, 'why', err)}") from None
         for label, eng in engines:
@@ -383,6 +392,7 @@ def py_roundtrip(check: Check, rule: str = "PY-sem") -> bool:
         where = loc(rep_fn)
         check.require(hit is None, rule, f"{construct}/{aspect}", good if hit is None else hit[0], where, {}, exhaustive=True, cases=cases)
     check.notes.append(f"{rule}: {cases} model engines x alias settings, {compared} fields compared")
+    check.repr_interpreted = {q.split(":", 1)[1] for q in entered if q.startswith("__repr__:")}  # the classes whose representation the model engines exercised
     return not undecided
 
 
